@@ -124,8 +124,8 @@ type c16Env struct {
 	c     *core.Ctx
 	t     *tools
 	lang  c16Lang
-	root  string            // scratch root of this language
-	inDir string            // schema files
+	root  string                                  // scratch root of this language
+	inDir string                                  // schema files
 	gen   map[string]map[string]map[string]string // s -> o -> path -> cid
 	rt    map[string]map[string]string            // o -> outside path -> cid
 }
